@@ -10,14 +10,16 @@ def build(U):
     S = U.src('src/migration/scan_migration.rs')
     U.prelude('c19_pre.rs')
     # R11: byte-string constants, bytes copied from the source on every run
-    for c in ('PTTL_NO_EXPIRE', 'RESTORE_NO_EXPIRE', 'PTTL_KEY_NOT_FOUND'):
+    consts = re.findall(r'pub const ((?:PTTL|RESTORE)_\w+): &\[u8\] = b"', S.text)
+    for c in consts:
         U.add(cfn(c, S.const_bytes(c)))
+    cre = r'\b(' + '|'.join(consts) + r')\b' 
     f1 = S.fn('pttl_to_restore_expire_time')
     f2 = S.fn('pttl_need_to_be_no_expire')
     for f in (f1, f2):
         f.r1_logging()
         # R11 / R10 / R5
-        f.text = re.sub(r'\b(PTTL_NO_EXPIRE|RESTORE_NO_EXPIRE|PTTL_KEY_NOT_FOUND)\b', lambda m: m.group(1).lower() + '()', f.text)
+        f.text = re.sub(cre, lambda m: m.group(1).lower() + '()', f.text)
         f.text, n = re.subn(r'\bif (\w+) == (\w+\(\)) \{', r'if shim_slice_eq(\1, \2) {', f.text)
         if n: U.log.rule('R10', f, '%d slice comparison(s)' % n)
         f.text, n = re.subn(r'btoi::btoi::<i64>\(', 'shim_btoi_i64(', f.text)
